@@ -112,6 +112,7 @@ class Engine:
         self.param_values = {}
         self.decide_calls = 0
         self.assumed_used = set()
+        self.ghost_hits = set()
 
     # ------------------------------------------------------------------------------------
     def _index_loops(self):
@@ -215,6 +216,9 @@ class Engine:
         results = self.exec_block(st, self.fn.body)
         for st2, out in results:
             self.finish_path(st2, out)
+        missing = set(self.c.get('ghost_after', {})) - self.ghost_hits
+        if missing and not self.unsupported:
+            raise SpecError(f'{self.qualname}: ghost_after anchors not found in the source (spec drift): {sorted(missing)}')
         return self.obligations
 
     def finish_path(self, st, out):
@@ -233,6 +237,11 @@ class Engine:
                 st.env['result'] = val
                 posts = c.get('ensures', [])
                 tag = 'post'
+            # callers treat `raises: {Exc: cond}` as "raises iff cond": a normal exit must therefore imply not cond
+            for exc, cnd in c.get('raises', {}).items():
+                if isinstance(cnd, str) and cnd != 'maybe':
+                    g = z3.Not(self.spec_bool(cnd, st, use_old=True, mode='assume'))
+                    self.oblige(st, g, f'normal-exit-implies-not-raise-cond[{exc}]@L{ln}', tag, node, note=f'not ({cnd})')
             for k, e in enumerate(posts):
                 try:
                     g = self.spec_bool(e, st)
@@ -308,6 +317,20 @@ class Engine:
             self.stmts_modelled.add(stmt.lineno)
             for s_out, _ in res:
                 s_out.forced = {}
+            ga = self.c.get('ghost_after')
+            if ga and not isinstance(stmt, (ast.If, ast.For, ast.While, ast.Try)) and not st.spec:
+                src = ga.get(ast.unparse(stmt))
+                if src:
+                    self.ghost_hits.add(ast.unparse(stmt))
+                    for s_out, o in res:
+                        if o[0] == NORMAL:
+                            for gsrc in src:
+                                for g in ast.parse(gsrc).body:
+                                    s_out.spec = True
+                                    try:
+                                        self._exec_stmt(s_out, g)
+                                    finally:
+                                        s_out.spec = False
             return res
         except ForkReq as f:
             del self.obligations[n_obl:]
